@@ -102,12 +102,23 @@ def fromBytes (bs : Bytes) : Outcome (Bytes × Bytes) :=
 
 /-- `SignedMessage::to_bytes` / `to_vec` (/repo/src/sign.rs): a buffer of
 `signature.len() + message.len()` bytes, the signature copied to `[..64]`, the message to
-`[64..]`.  The signature type is `ByteArray<64>`, so in Rust `signature.len() = 64` always;
-for a pair whose first component is not 64 bytes long the Rust function has no counterpart
-(`copy_from_slice` would panic) and this model simply concatenates. -/
+`[64..]`.  TOTALISED: this model simply concatenates.  The signature type is any
+`ByteArray<64>`; for the containers whose TYPE carries the length (`[u8; 64]`,
+`StackByteArray<64>`, `HeapByteArray<64>`, `Locked<…>`) `signature.len() = 64` always and the
+concatenation is what the Rust computes.  For `Vec<u8>` (also a `ByteArray<64>`, and what
+`SignedMessage<Vec<u8>, _>` holds after `from_parts` or serde) `signature.len()` can be anything,
+and then `s[..64].copy_from_slice(signature)` PANICS (length mismatch, or range end out of bounds):
+that branch is modelled in `Model.EncodingVec.signedToBytesRaw`, which equals this function exactly
+when `sm.1.length = 64` (`Proofs.EncodingVecExtra.signedToBytesRaw_eq`). -/
 def toBytes (sm : Bytes × Bytes) : Bytes := sm.1 ++ sm.2
 
-/-- `SignedMessage::verify(public_key)` = `crypto_sign_verify_detached(signature, message, pk)` -/
+/-- `SignedMessage::verify(public_key)` = `crypto_sign_verify_detached(signature, message, pk)`
+for containers whose type carries the length.  TOTALISED and MORE FORGIVING than the code for
+`Vec<u8>` / `&[u8]` containers: it answers `false` when `signature.len() ≠ 64` or
+`public_key.len() ≠ 32`, where the Rust (`signature.as_array()`, `public_key.as_array()`) panics on
+a shorter container and looks only at the first 64 / 32 bytes of a longer one.  The code-shaped
+function is `Model.ObjectView.objVerifyMessage`; the two agree when the lengths are exact
+(`Proofs.ObjectViewExtra.objVerifyMessage_exact`). -/
 def verifyMessage (H : Bytes → Bytes) (sm : Bytes × Bytes) (pk : Bytes) : Bool :=
   verifyDetached H sm.1 sm.2 pk false
 
